@@ -100,6 +100,24 @@ def pregen_slicego(work):
     return None
 
 
+def pregen_pqgo(work):
+    """Ekit/Generated/PQGo.lean: internal/queue/priority_queue.go as terms of the fourth MiniGo instance (harness/minigopq);
+    it imports the translated internal/slice (SliceGo), so that one is regenerated first."""
+    e = pregen_slicego(work)
+    if e:
+        return e
+    binp, blog = work.build("minigopq")
+    if binp is None:
+        return "Go->MiniGo(PQ) translator does not build: " + blog
+    out = os.path.join(core.LEAN, "Ekit", "Generated", "PQGo.lean")
+    tmp = os.path.join(work.dir, "PQGo.lean")
+    rc, log = core.sh([binp, "-root", work.repo, "-out", tmp], env=core.GOENV, timeout=120)
+    if rc != 0:
+        return "Go->MiniGo(PQ) translator failed (internal/queue/priority_queue.go left the translated subset): " + log
+    core.write_if_changed(out, open(tmp).read())
+    return None
+
+
 def lean_obligations(res, pid, extra_targets=()):
     """lake build of the property module + axiom audit + forbidden-token grep.
     Returns True iff every proof obligation of `pid` is discharged."""
